@@ -186,7 +186,7 @@ func checkTransformBy(r *fw.R, sps []oracle.Subpath, apply func(*canvas.Path) *c
 			viol(r, sps, "transform-structure", fmt.Sprintf("subpath %d: %d segments (closed=%v) in, %d (closed=%v) out", i, len(sps[i].Segs), sps[i].Closed, len(out[i].Segs), out[i].Closed))
 			return
 		}
-		if d := out[i].Start.Dist(am.Apply(sps[i].Start)); d > tol {
+		if d := out[i].Start.Dist(am.Apply(sps[i].Start)); !(d <= tol) {
 			viol(r, sps, "transform-point", fmt.Sprintf("start of subpath %d is %v, expected %v", i, out[i].Start, am.Apply(sps[i].Start)))
 			return
 		}
@@ -196,7 +196,7 @@ func checkTransformBy(r *fw.R, sps []oracle.Subpath, apply func(*canvas.Path) *c
 				viol(r, sps, "transform-structure", fmt.Sprintf("segment %d of subpath %d changed its command from %v to %v", k, i, s.Kind, o.Kind))
 				return
 			}
-			if d := o.P1.Dist(am.Apply(s.P1)); d > tol {
+			if d := o.P1.Dist(am.Apply(s.P1)); !(d <= tol) {
 				viol(r, sps, "transform-point", fmt.Sprintf("end of segment %d is %v, expected %v", k, o.P1, am.Apply(s.P1)))
 				return
 			}
@@ -208,7 +208,7 @@ func checkTransformBy(r *fw.R, sps []oracle.Subpath, apply func(*canvas.Path) *c
 					w = math.Max(w, o.At(f).Dist(am.Apply(s.At(f))))
 				}
 				r.Max("transform_bezier_diff/tol", w/tol)
-				if w > tol {
+				if !(w <= tol) {
 					viol(r, sps, "transform-bezier", fmt.Sprintf("segment %d differs from the image of the input by %.3g; output %s", k, w, oracle.Fmt(outData)))
 					return
 				}
@@ -239,7 +239,7 @@ func checkArc(r *fw.R, sps []oracle.Subpath, s, o oracle.Seg, am, inv oracle.Aff
 	if st == oracle.ArcHalf {
 		eps = 1e-9
 	}
-	if math.Abs(lam2-lam) > eps {
+	if !(math.Abs(lam2-lam) <= eps) {
 		viol(r, sps, "transform-arc-radii", fmt.Sprintf("radii do not fit the chord as before: lambda %.12g -> %.12g; output %s", lam, lam2, oracle.Fmt(outData)))
 		return false
 	}
@@ -262,7 +262,7 @@ func checkArc(r *fw.R, sps []oracle.Subpath, s, o oracle.Seg, am, inv oracle.Aff
 		q := am.Apply(oracle.SegAt(s, float64(j)/n))
 		t, d := oracle.NearestParamMulti(o, q, 64)
 		w = math.Max(w, d)
-		if d > tol {
+		if !(d <= tol) {
 			viol(r, sps, "transform-arc-geometry", fmt.Sprintf("image of input arc point #%d/%d (%.9g,%.9g) is %.3g away from the output arc; output %s", j, n, q.X, q.Y, d, oracle.Fmt(outData)))
 			return false
 		}
@@ -276,7 +276,7 @@ func checkArc(r *fw.R, sps []oracle.Subpath, s, o oracle.Seg, am, inv oracle.Aff
 		q := inv.Apply(oracle.SegAt(o, float64(j)/n))
 		_, d := oracle.NearestParamMulti(s, q, 64)
 		d *= math.Sqrt(math.Abs(am.Det())) // rough rescaling into image units
-		if d > tol*cond(am) {
+		if !(d <= tol*cond(am)) {
 			viol(r, sps, "transform-arc-geometry", fmt.Sprintf("output arc point #%d/%d is not the image of an input arc point (preimage %.3g away); output %s", j, n, d, oracle.Fmt(outData)))
 			return false
 		}
@@ -492,13 +492,13 @@ func singleLaws(r *fw.R, cm canvas.Matrix, am oracle.Aff) {
 	for _, p := range lattice {
 		q := cm.Dot(canvas.Point{X: p.X - 1, Y: p.Y - 1})
 		e := am.Apply(oracle.Pt{X: p.X - 1, Y: p.Y - 1})
-		if math.Hypot(q.X-e.X, q.Y-e.Y) > 1e-12*math.Max(1, am.Norm()) {
+		if !(math.Hypot(q.X-e.X, q.Y-e.Y) <= 1e-12*math.Max(1, am.Norm())) {
 			viol(r, nil, "matrix-dot", fmt.Sprintf("Dot(%v)=%v expected %v", p, q, e))
 			break
 		}
 	}
 	// Det
-	if d := math.Abs(cm.Det() - am.Det()); d > 1e-12*math.Max(1, math.Abs(am.Det())) {
+	if d := math.Abs(cm.Det() - am.Det()); !(d <= 1e-12*math.Max(1, math.Abs(am.Det()))) {
 		viol(r, nil, "matrix-det", fmt.Sprintf("Det=%g expected %g", cm.Det(), am.Det()))
 	}
 	// Inv inverts (both sides)
@@ -569,7 +569,7 @@ func singleLaws(r *fw.R, cm canvas.Matrix, am oracle.Aff) {
 		lo = oracle.Pt{X: math.Min(lo.X, q.X), Y: math.Min(lo.Y, q.Y)}
 		hi = oracle.Pt{X: math.Max(hi.X, q.X), Y: math.Max(hi.Y, q.Y)}
 	}
-	if d := math.Max(math.Max(math.Abs(got.X0-lo.X), math.Abs(got.Y0-lo.Y)), math.Max(math.Abs(got.X1-hi.X), math.Abs(got.Y1-hi.Y))); d > 1e-12*math.Max(1, am.Norm())*4 {
+	if d := math.Max(math.Max(math.Abs(got.X0-lo.X), math.Abs(got.Y0-lo.Y)), math.Max(math.Abs(got.X1-hi.X), math.Abs(got.Y1-hi.Y))); !(d <= 1e-12*math.Max(1, am.Norm())*4) {
 		viol(r, nil, "rect-transform", fmt.Sprintf("Rect.Transform(%v)=%v expected %v-%v", cm, got, lo, hi))
 	}
 }
@@ -583,12 +583,12 @@ func pairLaws(r *fw.R, ca, cb canvas.Matrix, aa, ab oracle.Aff) {
 	for _, p := range lattice {
 		cp := canvas.Point{X: p.X - 1, Y: p.Y - 1}
 		x, y := prod.Dot(cp), ca.Dot(cb.Dot(cp))
-		if math.Hypot(x.X-y.X, x.Y-y.Y) > 1e-12*math.Max(1, want.Norm())*4 {
+		if !(math.Hypot(x.X-y.X, x.Y-y.Y) <= 1e-12*math.Max(1, want.Norm())*4) {
 			viol(r, nil, "matrix-mul-order", fmt.Sprintf("a=%v b=%v: a.Mul(b).Dot(%v)=%v but a.Dot(b.Dot(p))=%v", ca, cb, cp, x, y))
 			break
 		}
 	}
-	if d := math.Abs(prod.Det() - ca.Det()*cb.Det()); d > 1e-12*math.Max(1, math.Abs(want.Det())) {
+	if d := math.Abs(prod.Det() - ca.Det()*cb.Det()); !(d <= 1e-12*math.Max(1, math.Abs(want.Det()))) {
 		viol(r, nil, "matrix-det-multiplicative", fmt.Sprintf("det(ab)=%g det(a)det(b)=%g", prod.Det(), ca.Det()*cb.Det()))
 	}
 	if aa.MaxAbsDiff(ab) > 1e-9 && want.MaxAbsDiff(ab.After(aa)) > 1e-9 {
